@@ -4,7 +4,11 @@ cd "$(dirname "$0")/.."
 pass=0; fail=0
 for d in seeded/*/; do
   n=$(basename $d); p=$(python3 -c "import json;print(json.load(open('$d/meta.json'))['breaks_property'])")
-  out=$(tools/try_mutant.sh $d/patch.diff $p 2>&1 | tail -2)
-  if echo "$out" | grep -q '^VIOLATION'; then pass=$((pass+1)); echo "caught  $n  $(echo "$out" | grep VIOLATION | sed 's/.*json//' | head -1) :: $(echo "$out" | tail -1 | cut -c1-110)"; else fail=$((fail+1)); echo "MISSED  $n  $out"; fi
+  out=$(VERIF_ALL_LINES=1 tools/try_mutant.sh $d/patch.diff $p 2>&1)
+  if echo "$out" | grep -q '^VIOLATION'; then
+    pass=$((pass+1))
+    if echo "$out" | grep '^VIOLATION' | grep -qv 'no-failing-input-found'; then kind="witness"; else kind="NO-WITNESS"; fi
+    echo "caught  $kind  $n :: $(echo "$out" | grep -A1 '^VIOLATION' | grep -v '^VIOLATION' | grep -v '^--' | head -1 | cut -c1-120)"
+  else fail=$((fail+1)); echo "MISSED  $n  $(echo "$out" | tail -2)"; fi
 done
 echo "seeded regression: $pass caught, $fail missed"
